@@ -145,6 +145,20 @@ func core(t *rapid.T, vars []int) [][]int {
 	return [][]int{{vars[0]}, {-vars[0]}}
 }
 
+// genDense: dense 3-SAT (ratio 4.5..6, n 7..14) with 2..5 unit clauses, through the methods that work under assumptions
+// (MUSDeletion and the ones built on it): conflicts several levels deep whose analysis walks through literals that only
+// hold because of an assumption, with learned clauses kept from one Solve call to the next.
+func genDense(t *rapid.T) Case {
+	c := Case{Method: rapid.SampledFrom([]string{"MUS", "MUSDeletion", "MUSDeletion", "MUSMaxSat"}).Draw(t, "method"), Shape: "dense-3sat-with-units"}
+	c.N = gen.Uniform(t, 7, 14, "n")
+	c.Clauses = gen.KSAT(t, c.N, c.N*gen.Uniform(t, 45, 60, "ratio")/10, 3)
+	for i, k := 0, gen.Uniform(t, 2, 5, "units"); i < k; i++ {
+		c.Clauses = append(c.Clauses, []int{gen.Lit(t, c.N, "u")})
+	}
+	c.Clauses = rapid.Permutation(c.Clauses).Draw(t, "order")
+	return c
+}
+
 func genCase(t *rapid.T) Case {
 	c := Case{Method: rapid.SampledFrom([]string{"MUS", "MUSDeletion", "MUSInsertion", "MUSMaxSat"}).Draw(t, "method")}
 	switch rapid.IntRange(0, 8).Draw(t, "shape") {
@@ -232,7 +246,9 @@ func min(a, b int) int {
 }
 
 func init() {
-	vf.Register(vf.Sub[Case]{Name: "mus", Quick: 10000, Thorough: 120000, Gen: genCase, Check: check, Floor: 0.25,
+	vf.Register(vf.Sub[Case]{Name: "dense-under-assumptions", Quick: 5000, Thorough: 150000, Gen: genDense, Check: check, Floor: 0.5,
+		Rule: "dense 3-SAT (ratio 4.5..6) over 7..14 variables with 2..5 unit clauses, clauses shuffled, methods MUS|MUSDeletion|MUSMaxSat (the ones that solve under assumptions with one hot solver), same oracle and non-triviality rule as mus"})
+	vf.Register(vf.Sub[Case]{Name: "mus", Quick: 2500, Thorough: 120000, Gen: genCase, Check: check, Floor: 0.25,
 		Rule: "CNF n<=10 via explain.ParseCNF, clauses over distinct variables: random (about 40% satisfiable), one core + padding, two disjoint cores, two overlapping cores, pigeonhole 3->2 / 4->3, repeated clauses, trivially conflicting units, dense 3-SAT (n 7..13) with unit clauses; in a third of the cases the clauses handed to the library are sub-slices of one array, which must stay untouched; method MUS|MUSDeletion|MUSInsertion|MUSMaxSat called twice on the same receiver; oracle = truth table: result is a sub-multiset of the input, unsatisfiable, every single-clause removal satisfiable, NbClauses consistent; satisfiable input => error and nil; receiver (Clauses deep, NbVars, NbClauses) unchanged; non-trivial = unsat input with >=2 clauses more than the returned MUS"})
 }
 
